@@ -1,6 +1,7 @@
 package an
 
 import (
+	"regexp"
 	"go/types"
 
 	"golang.org/x/tools/go/ssa"
@@ -228,4 +229,109 @@ func returnsStatementList(fn *ssa.Function) bool {
 		}
 	}
 	return false
+}
+
+// parserPrefixField: the string field of the parser that carries the file's namespace prefix,
+// found by its use: the field whose value is handed to the methods of the parsing context
+// (lookups, definitions, the key builder) most often.
+func parserPrefixField(w *World) string {
+	cf, err := buildCtxFacts(w)
+	if err != nil {
+		return ""
+	}
+	count := map[string]int{}
+	for _, fn := range w.Funcs("parser") {
+		for _, b := range fn.Blocks {
+			for _, ins := range b.Instrs {
+				c, ok := ins.(*ssa.Call)
+				if !ok {
+					continue
+				}
+				callee := c.Call.StaticCallee()
+				if callee == nil || callee.Signature.Recv() == nil || !cf.isCtx(callee.Signature.Recv().Type()) {
+					continue
+				}
+				for _, a := range c.Call.Args[1:] {
+					u, ok := a.(*ssa.UnOp)
+					if !ok || !isString(u.Type()) {
+						continue
+					}
+					if fa, ok := u.X.(*ssa.FieldAddr); ok {
+						if pt, ok := fa.X.Type().Underlying().(*types.Pointer); ok && namedName(pt.Elem()) == "Parser" {
+							count[structFieldName(fa.X.Type(), fa.Field)]++
+						}
+					}
+				}
+			}
+		}
+	}
+	best, n := "", 0
+	for f, c := range count {
+		if c > n || (c == n && f < best) {
+			best, n = f, c
+		}
+	}
+	return best
+}
+
+// counterRoles: the names of the converter's helper-variable counter (the counter that numbers
+// the helper a value-producing method hands back) and of its function counter (the counter in
+// the prefix of mangled locals), read from the templates.
+func counterRoles(b *Backend) (helper string, function string) {
+	cnt := map[string]int{}
+	re := regexp.MustCompile(`⟨#field:(\w+)@`)
+	for _, mf := range b.X.Methods {
+		for _, rv := range mf.Returns {
+			var ts []Tmpl
+			switch v := rv.(type) {
+			case StrV:
+				ts = append(ts, v.T)
+			case ListV:
+				for _, el := range v.uniform() {
+					ts = append(ts, asTmpl(el))
+				}
+			}
+			for _, t := range ts {
+				for _, m := range re.FindAllStringSubmatch(t.String(), -1) {
+					cnt[m[1]]++
+				}
+			}
+		}
+	}
+	n := 0
+	for f, c := range cnt {
+		if c > n || (c == n && f < helper) {
+			helper, n = f, c
+		}
+	}
+	// function counter: the counter inside the mangled option of the in-function choice
+	if cond, idx, ok := inFunctionChoice(b); ok {
+		_ = cond
+		var scan func(t Tmpl)
+		scan = func(t Tmpl) {
+			for _, p := range t {
+				switch p := p.(type) {
+				case Alt:
+					if len(p.Opts) == 2 && p.Cond == cond && function == "" {
+						if m := regexp.MustCompile(`⟨#field:(\w+)⟩`).FindStringSubmatch(p.Opts[idx].String()); m != nil {
+							function = m[1]
+						}
+					}
+					for _, o := range p.Opts {
+						scan(o)
+					}
+				case Rep:
+					scan(p.Body)
+				case Join:
+					scan(p.Elem)
+				}
+			}
+		}
+		for _, mf := range b.X.Methods {
+			for _, em := range mf.Emissions {
+				scan(em.T)
+			}
+		}
+	}
+	return helper, function
 }
